@@ -179,6 +179,9 @@ type Region struct {
 	Base     int
 	Step32   int
 	Step16   int
+	// Core marks the compact field windows (counts, sizes, offsets, magics of
+	// each structure) that the quick tier is restricted to.
+	Core bool
 }
 
 func (r Region) end() int { return r.Off + r.Len }
